@@ -11,6 +11,7 @@ import (
 	"github.com/plgd-dev/go-coap/v3/message/codes"
 	"github.com/plgd-dev/go-coap/v3/message/pool"
 	"github.com/plgd-dev/go-coap/v3/net/blockwise"
+	"github.com/plgd-dev/go-coap/v3/net/monitor/inactivity"
 	"github.com/plgd-dev/go-coap/v3/net/responsewriter"
 	tcpclient "github.com/plgd-dev/go-coap/v3/tcp/client"
 
@@ -132,6 +133,9 @@ func (e *tenv) run(kind string) (bool, string) {
 		}
 		e.feed(codes.Content, q.Token, nil, []byte("ok"))
 		return c.wait(), toutcome(c)
+	case "plainBodyFail":
+		c := e.async(func() (*pool.Message, error) { return cc.Post(ctx, p, message.TextPlain, &failBody{size: 8}) })
+		return c.wait(), toutcome(c)
 	case "plainCancel":
 		c := get()
 		if _, ok := e.waitOut(tpathIs(p)); !ok {
@@ -244,6 +248,24 @@ func (e *tenv) run(kind string) (bool, string) {
 		case <-time.After(conns.WD):
 			return false, "nopong"
 		}
+	case "kaMissed":
+		// the keep-alive (the library's KeepAlive object driven on this connection, as options.WithKeepAlive composes it) pings
+		// three times; the peer leaves the first two pings unanswered for good and answers the third: a ping that is superseded
+		// is cancelled, the answered one is ended by its Pong - nothing of the three stays
+		ka := inactivity.NewKeepAlive(5, func(*tcpclient.Conn) {}, func(cc *tcpclient.Conn, receivePong func()) (func(), error) {
+			return cc.AsyncPing(receivePong)
+		})
+		var last conns.TFrame
+		for k := 0; k < 3; k++ {
+			ka.OnInactive(cc)
+			q, ok := e.waitOut(func(f conns.TFrame) bool { return f.Code == int(codes.Ping) })
+			if !ok {
+				return false, "norequest"
+			}
+			last = q
+		}
+		e.feed(codes.Pong, last.Token, nil, nil)
+		return true, "ok"
 	case "oneWay":
 		c := e.async(func() (*pool.Message, error) {
 			req, err := cc.NewGetRequest(ctx, p)
